@@ -197,7 +197,9 @@ def main(argv=None):
     proof_broken = not pr["ok"]
 
     # 3+4: correspondence and runtime legs (escalated to thorough if a proof obligation broke)
-    run_tier = "thorough" if (proof_broken and not replay) else tier
+    # (not for the with-machine checks: their thorough corpus takes 30-45 minutes; the quick corpus is
+    #  searched instead and the thorough command searches the large one)
+    run_tier = "thorough" if (proof_broken and not replay and cfg.get("escalate", True)) else tier
     # one directory per run, so that two runs of the same check cannot delete each other's files
     base = os.path.join(BUILD, "cases", prop)
     os.makedirs(base, exist_ok=True)
